@@ -164,7 +164,11 @@ func (c *upCase) run() (T, []string) {
 			var e1, e2 error
 			start := make(chan struct{})
 			wg.Add(2)
-			go func() { defer wg.Done(); <-start; e1 = eb.RegisterUpcastFunc(bus, upName(o.from), upName(o.to), c.mkFn(o.fn, &calls)) }()
+			go func() {
+				defer wg.Done()
+				<-start
+				e1 = eb.RegisterUpcastFunc(bus, upName(o.from), upName(o.to), c.mkFn(o.fn, &calls))
+			}()
 			go func() {
 				defer wg.Done()
 				<-start
